@@ -39,6 +39,10 @@ pub fn rich_schema() -> Schema {
     let nf = TextOptions::default().set_indexing_options(
         TextFieldIndexing::default().set_tokenizer("default").set_index_option(IndexRecordOption::WithFreqs).set_fieldnorms(false));
     sb.add_text_field("nf", nf);
+    // the title tokens again, indexed without frequencies (IndexRecordOption::Basic) but with fieldnorms
+    let bt = TextOptions::default().set_indexing_options(
+        TextFieldIndexing::default().set_tokenizer("default").set_index_option(IndexRecordOption::Basic).set_fieldnorms(true));
+    sb.add_text_field("bt", bt);
     // longer texts over 8 words with skewed frequencies: conjunctions / unions of 4..6 terms have many matches (block-WAND paths of C06)
     sb.add_text_field("body", TEXT);
     sb.build()
@@ -71,6 +75,7 @@ pub fn to_doc(schema: &Schema, d: &Value) -> TantivyDocument {
         let toks: Vec<String> = t.iter().map(|x| x.as_str().unwrap().to_string()).collect();
         doc.add_text(f("title"), toks.join(" "));
         doc.add_text(f("nf"), toks.join(" "));
+        doc.add_text(f("bt"), toks.join(" "));
     }
     if let Some(t) = d.get("body").and_then(|x| x.as_array()) {
         let toks: Vec<String> = t.iter().map(|x| x.as_str().unwrap().to_string()).collect();
